@@ -23,9 +23,10 @@ import tempfile
 
 from harness import core, gen, histcheck, isoapi
 
-LEAN_MODULES = ['Pycdlib.Props.C11']
+LEAN_MODULES = ['Pycdlib.Props.C11', 'Pycdlib.Props.C11Parse']
 THEOREMS = ['Pycdlib.Boot.validation_sum', 'Pycdlib.Boot.catalog_length', 'Pycdlib.Boot.catalog_fits', 'Pycdlib.Boot.entry_fields',
-            'Pycdlib.Boot.floppy_media', 'Pycdlib.Boot.last_header', 'Pycdlib.Boot.nonlast_header']
+            'Pycdlib.Boot.floppy_media', 'Pycdlib.Boot.last_header', 'Pycdlib.Boot.nonlast_header',
+            'Pycdlib.Boot.catalog_parse_roundtrip', 'Pycdlib.Boot.without_rule_next_sector_decides']
 PARTIAL = {
     'load_rba_points_partial': 'that every load address equals the first data sector of the chosen boot content after any history is '
     'decided by the reader oracle per scenario (the layout composition is not one theorem yet)',
@@ -257,6 +258,19 @@ def scenario(ctx, rng, tmpdir):
     # oracle on the written bytes
     rep = isoapi.read_image(ctx, path)
     img = open(path, 'rb').read()
+    # the catalog as the library reads it back vs the model's parser, on the image and on a few damaged catalogs
+    rp_cat = {'kind': 'scenario', 'seed': scenario.seed}
+    catalog_read_corr(ctx, img, 'scenario', rp_cat, must_open=True)
+    catsec0 = struct.unpack_from('<L', img, 17 * 2048 + 71)[0]
+    for _ in range(4):
+        m = bytearray(img)
+        for _k in range(rng.randint(1, 3)):
+            chunk = rng.randrange(2, 2 + 2 * len(boots) + 2)
+            if rng.random() < 0.6:
+                m[catsec0 * 2048 + 32 * chunk] = rng.choice([0, 0x44, 0x88, 0x90, 0x91, 0x42])
+            else:
+                m[catsec0 * 2048 + 32 * chunk + rng.choice([1, 2, 3, 5])] = rng.choice([0, 1, 2, 3, 5, 0xef])
+        catalog_read_corr(ctx, bytes(m), 'damaged catalog', rp_cat)
     for e in rep.errs:
         code = e.split(':')[0]
         if histcheck.owns(code, histcheck.BOOT_CODES):
@@ -329,6 +343,15 @@ def scenario(ctx, rng, tmpdir):
             if cfg.get('udf'):
                 kw['udf_path'] = '/zzgen2'
             g2.add_fp(io.BytesIO(b'second generation'), 17, **kw)
+            # ... and a directory, whose extent comes before all file data: every boot file moves
+            dkw = {'iso_path': '/ZZGEN2D'}
+            if cfg.get('rr'):
+                dkw['rr_name'] = 'zzgen2d'
+            if cfg.get('joliet'):
+                dkw['joliet_path'] = '/zzgen2d'
+            if cfg.get('udf'):
+                dkw['udf_path'] = '/zzgen2d'
+            g2.add_directory(**dkw)
             pg = os.path.join(tmpdir, 'g%d.iso' % rng.randrange(10 ** 12))
             g2.write(pg)
             g2.close()
@@ -355,6 +378,11 @@ def scenario(ctx, rng, tmpdir):
                     cnt = int([x for x in flds if x.startswith('cnt')][0][3:])
                     data = data[:cnt * 512]
                 stored = imgg[rba2 * 2048: rba2 * 2048 + len(data)]
+                if b['kw'].get('boot_info_table') and len(data) >= 64 and stored[:8] == data[:8] and stored[64:] == data[64:]:
+                    # the table must describe the file where it is NOW (pvd 16, its sector, its length, its checksum)
+                    want_bit = bytes.fromhex(ctx.driver.ask(['bit 16 %d %d %s' % (rba2, len(b['data']), b['data'].hex())])[0])
+                    if len(data) == len(b['data']) and stored[8:64] != want_bit:
+                        gviol('boot-info-table', 'after reopening and adding a file the boot info table of %s is stale (file now at sector %d)' % (b['name'], rba2))
                 if stored[:8] != data[:8] or stored[64:] != data[64:]:
                     gviol('load-rba', 'after reopening and adding a file the entry for %s points at sector %d, which does not hold the boot file' % (b['name'], rba2))
         except Exception as e:  # noqa
@@ -510,10 +538,136 @@ def probe_shared_hidden(ctx):
         shutil.rmtree(tmpdir, ignore_errors=True)
 
 
+def probe_hidden_bit(ctx):
+    """a boot file with a boot info table, of a length that is no multiple of the sector size, loses its names; the image is
+    written, opened, a directory is added (every file moves) and it is written again: the table must describe the file at
+    its new place"""
+    import pycdlib
+    tmpdir = tempfile.mkdtemp(prefix='verif-c11r-')
+    rp = {'kind': 'probe-hidden-bit'}
+    try:
+        for n in (5000, 2049, 6144):
+            data = bytes((j * 7 + 1) % 251 for j in range(n))
+            with isoapi.frozen_time():
+                iso = pycdlib.PyCdlib()
+                iso.new(interchange_level=3)
+                iso.add_fp(io.BytesIO(data), n, '/B0.;1')
+                iso.add_eltorito('/B0.;1', boot_info_table=True)
+                iso.rm_hard_link(iso_path='/B0.;1')
+                out = io.BytesIO()
+                iso.write_fp(out)
+                iso.close()
+                g = pycdlib.PyCdlib()
+                try:
+                    g.open_fp(io.BytesIO(out.getvalue()))
+                    g.add_directory('/NEWDIR')
+                    g.add_fp(io.BytesIO(b'x' * 3000), 3000, '/NEWDIR/Z.;1')
+                    p = os.path.join(tmpdir, 'r.iso')
+                    g.write(p)
+                    g.close()
+                except Exception as e:  # noqa
+                    ctx.violation('C11.gen2/hidden-bit/raises-%s' % isoapi.exc_class(e), 'hidden boot file with boot info table (%d bytes): open + edit + write raised %r' % (n, e), rp)
+                    continue
+            rep = isoapi.read_image(ctx, p)
+            img = open(p, 'rb').read()
+            ctx.count(key=('probe-hidden-bit', n), nontrivial=True, kind='probe:hidden-boot-info-table')
+            rbas = [int([x for x in e.split(':') if x.startswith('rba')][0][3:]) for e in rep.entries if e.startswith('B:')]
+            if len(rbas) != 1:
+                ctx.violation('C11.gen2/hidden-bit/entry-count', 'catalog has %d entries' % len(rbas), rp)
+                continue
+            want = bytes.fromhex(ctx.driver.ask(['bit 16 %d %d %s' % (rbas[0], n, data.hex())])[0])
+            stored = img[rbas[0] * 2048: rbas[0] * 2048 + n]
+            if stored[:8] != data[:8] or stored[64:] != data[64:]:
+                ctx.violation('C11.gen2/hidden-bit/content', 'the hidden boot file (%d bytes) is not at its load address %d any more' % (n, rbas[0]), rp)
+            elif stored[8:64] != want:
+                ctx.violation('C11.gen2/hidden-bit/stale-table', 'boot info table of the hidden boot file (%d bytes, now at sector %d) still says sector %d' % (
+                    n, rbas[0], struct.unpack_from('<L', stored, 12)[0]), rp)
+            for c, d in isoapi.check_allocs(rep):
+                ctx.violation('C11.gen2/hidden-bit/alloc-%s' % c, 'hidden boot file with boot info table (%d bytes): %s' % (n, d), rp)
+    finally:
+        shutil.rmtree(tmpdir, ignore_errors=True)
+
+
+def cat_canon(cat):
+    """the parsed catalog of a PyCdlib object in the notation of the model's `eltparse`"""
+    def ent(e):
+        return '%d,%d,%d,%d,%d,%d' % (1 if e.boot_indicator == 0x88 else 0, e.boot_media_type, e.load_segment, e.system_type, e.sector_count, e.load_rba)
+    secs = ['%d,%d,%d[%s]' % (s.header_indicator, s.platform_id, s.num_section_entries, '/'.join(ent(e) for e in s.section_entries)) for s in cat.sections]
+    return 'plat%d ini%s secs%s alone%s' % (cat.validation_entry.platform_id, ent(cat.initial_entry), ';'.join(secs), '/'.join(ent(e) for e in cat.standalone_entries))
+
+
+def catalog_read_corr(ctx, data, label, rp, must_open=False):
+    """correspondence for `Boot.parseCatalog` (theorem catalog_parse_roundtrip): the catalog pycdlib reconstructs when it
+    opens `data` against the model run on the bytes from the catalog's sector on."""
+    import pycdlib
+    catsec = struct.unpack_from('<L', data, 17 * 2048 + 71)[0]
+    chunk = data[catsec * 2048: catsec * 2048 + 4096]
+    model = ctx.driver.ask(['eltparse %s' % (chunk.hex() or '-')])[0]
+    g = pycdlib.PyCdlib()
+    try:
+        g.open_fp(io.BytesIO(data))
+    except Exception as e:  # noqa
+        ctx.count(key=('catread', label, model == 'bad'), nontrivial=True, kind='catalog-read:open-fails:model-%s' % ('bad' if model == 'bad' else 'ok'))
+        if must_open:
+            ctx.violation('C11.catalog-read/reopen-fails', 'an image written by the library (%s) cannot be opened: %s %s; the model reads its catalog as %s' % (
+                label, isoapi.exc_class(e), str(e)[:80], model[:120]), rp)
+        return
+    try:
+        impl = cat_canon(g.eltorito_boot_catalog) if g.eltorito_boot_catalog is not None else 'none'
+    finally:
+        g.close()
+    ctx.count(key=('catread', label, impl), nontrivial=True, kind='catalog-read:agree' if impl == model else 'catalog-read:differ')
+    ctx.traces_validated += 1
+    if impl != model:
+        ctx.disagree('S-boot/eltparse', 'catalog as read: impl=%s model=%s (%s)' % (impl[:160], model[:160], label), rp)
+
+
+def probe_full_catalog(ctx):
+    """a catalog that fills its sector (initial entry + 31 sections, the library's limit) has no room for a terminating
+    empty entry: what follows it on the image must not matter.  The sector after the catalog holds a file whose first
+    byte is chosen to look like nothing / a section entry / a section header / an extension."""
+    import pycdlib
+    for n in (30, 31):
+        for first in (0x42, 0x88, 0x90, 0x91, 0x44, 0x00):
+            rp = {'kind': 'probe-full-catalog'}
+            with isoapi.frozen_time():
+                iso = pycdlib.PyCdlib()
+                iso.new(interchange_level=3)
+                # the catalog is placed before the files; AAAA is the first file after it
+                iso.add_fp(io.BytesIO(bytes([first]) + b'\x01' * 2047), 2048, '/AAAA.;1')
+                for i in range(n + 1):
+                    iso.add_fp(io.BytesIO(bytes([0x30 + i % 10]) * 2048), 2048, '/B%02d.;1' % i)
+                try:
+                    for i in range(n + 1):
+                        iso.add_eltorito('/B%02d.;1' % i, efi=(i % 2 == 1), boot_load_size=4, bootable=(i != 3))
+                    out = io.BytesIO()
+                    iso.write_fp(out)
+                except Exception as e:  # noqa
+                    ctx.violation('C11.full-catalog/build-raises', '%d boot entries: %r' % (n + 1, e), rp)
+                    continue
+                finally:
+                    iso.close()
+            data = out.getvalue()
+            ctx.count(key=('full-catalog', n, first), nontrivial=True, kind='probe:full-catalog:%d' % (n + 1))
+            catalog_read_corr(ctx, data, '%d entries, next sector starts with %#x' % (n + 1, first), rp, must_open=True)
+            g = pycdlib.PyCdlib()
+            try:
+                g.open_fp(io.BytesIO(data))
+                k = 1 + sum(len(x.section_entries) for x in g.eltorito_boot_catalog.sections) + len(g.eltorito_boot_catalog.standalone_entries)
+                if k != n + 1:
+                    ctx.violation('C11.full-catalog/entry-count', '%d boot entries were recorded, the reopened image has %d (the sector after the catalog starts with %#x)' % (
+                        n + 1, k, first), rp)
+                g.close()
+            except Exception:  # noqa
+                pass        # reported above
+
+
 def run(ctx):
     run_fn(ctx)
+    probe_full_catalog(ctx)
     probe_nameless(ctx)
     probe_shared_hidden(ctx)
+    probe_hidden_bit(ctx)
     tmpdir = tempfile.mkdtemp(prefix='verif-c11-')
     try:
         for _ in range(60 if ctx.quick else 1500):
@@ -533,6 +687,10 @@ def replay(ctx, obj):
             probe_nameless(ctx)
         elif r.get('kind') == 'probe-shared-hidden':
             probe_shared_hidden(ctx)
+        elif r.get('kind') == 'probe-full-catalog':
+            probe_full_catalog(ctx)
+        elif r.get('kind') == 'probe-hidden-bit':
+            probe_hidden_bit(ctx)
         elif r.get('kind') == 'scenario':
             scenario.seed = r['seed']
             scenario(ctx, random.Random(r['seed']), tmpdir)
